@@ -2,7 +2,7 @@
 import mdibcheck
 import mdibgen
 
-FILES = ('70041_MDIB_Final.xml',)
+FILES = ('70041_MDIB_Final.xml', 'mdib_two_mds.xml')
 
 
 def run(ctx):
@@ -11,7 +11,7 @@ def run(ctx):
 
     # ---- stream `atomic`: aborts after each of the k body statements, rejected calls of every kind
     pairs = mdibcheck.run_histories(ctx, 'atomic', ctx.n(60, 700), ctx.n(10, 30), consumer=True,
-                                    weights={'state': 3, 'ctx': 2, 'location': 1, 'descr': 3, 'reject': 4, 'abort': 5},
+                                    weights={'state': 3, 'ctx': 2, 'location': 1, 'descr': 3, 'reject': 4, 'abort': 5, 'delstate': 1},
                                     mdib_files=FILES)
     nfail = mdibcheck.judge(ctx, 'atomic', pairs, [mdibgen.oracle_provider], {'C03'})
     mism = mdibcheck.model_correspondence(ctx, 'atomic', pairs, FILES)
@@ -76,7 +76,9 @@ def run(ctx):
         ctx.coqchk('SDC.Props.C03')
     return ctx.finish(
         rule='atomic: histories with an application exception after each of the k body statements and with every kind of '
-             'rejected call, full canonical snapshot + report log before/after, compared with the Coq model; alias: every '
+             'rejected call (incl. crafted walks: remove h, aborted / rejected re-creation of h, successful re-creation), '
+             'full canonical snapshot incl. the remembered versions of removed handles + report log before/after, compared '
+             'with the Coq model; alias: every '
              'nested attribute path (scalar members of nested objects, list members) of objects from transaction getters, '
              'descriptor getters, entity getters and transaction results is written inside an aborted or later '
              'transaction and the MDIB / the published copy must not change; commit-failure: serialisation of the report '
